@@ -114,6 +114,16 @@ def build_sets():
         sb, sf = vspec.pack_setup(s)
         sets.append((name, [idb, cb, sb] + packets_for(s) + [b'']))
         meta.append({'fields': [idf, cf, sf], 'kind': 'tiny' if name.startswith('tiny') else 'base', 'audio0': 3})
+    # residue geometry: value books whose dimension does not divide / exceeds the partition size / exceeds the block, all residue types.
+    # The audio packets come from the sibling setup with a 2-dimensional book (identical floor part); the 'tailfill' family then rewrites their tails.
+    for rt in (0, 1, 2):
+        for ch in (1, 2):
+            for psize, dim in ((2, 3), (2, 100), (8, 3), (8, 5), (8, 64), (32, 33), (32, 100), (32, 255), (16, 4095)):
+                s = vsynth.base_setup(channels=ch, bs0=64, bs1=128, restype=rt, psize=psize, vqdim=2, coupling=[(0, 1)] if ch == 2 else [])
+                pk = packets_for(s, 4)
+                s.books[2] = vspec.Codebook(dim, [1, 1], 1, minv=vsynth.fpack(-1.0), delta=vsynth.fpack(1.0), value_bits=1, mults=[1])
+                sets.append(('geom_r%d_ch%d_p%d_d%d' % (rt, ch, psize, dim), [vspec.pack_id(s)[0], vspec.pack_comment()[0], vspec.pack_setup(s)[0]] + pk + [b'']))
+                meta.append({'fields': None, 'kind': 'geom', 'audio0': 3})
     for name, kw in (('c02_real8k', dict(rate=8000, ch=1, n=3000, q=0.3, sig='mix', serial=11)), ('c02_real44k', dict(rate=44100, ch=2, n=9000, q=0.2, sig='impulse', serial=12))):
         pk = real_set(name, **kw)
         sets.append((name, pk[:3] + pk[3:23] + [b'']))
@@ -167,14 +177,14 @@ def gen_cases(sets, meta, tier):
             yield 'extreme', si, 'I Hb0 H1 H2 S B Y3 N O Ra Y3 N O'
             continue
         # A. every byte prefix of each header
-        for h in range(3):
+        for h in (range(3) if kind != 'geom' else ()):
             step = 1 if (kind != 'real' or tier == 'thorough' or len(pk[h]) < 400) else 1
             for ln in range(0, len(pk[h]), step):
                 ops = ['Hb0' if k == 0 else 'H%d' % k for k in range(3)]
                 ops[h] = ('Hb' if h == 0 else 'H') + '%dp%d' % (h, ln)
                 yield 'prefix', si, 'I ' + ' '.join(ops) + ' ' + DEC
         # B. every single-bit flip of the id and setup headers
-        if kind != 'real' or name == 'c02_real8k' or tier == 'thorough':
+        if (kind != 'real' or name == 'c02_real8k' or tier == 'thorough') and kind != 'geom':
             for h in (0, 2):
                 for bit in range(8 * len(pk[h])):
                     ops = list(hb)
@@ -227,6 +237,14 @@ def gen_cases(sets, meta, tier):
             if kind != 'real' or k < 3 + (lim if tier == 'thorough' else 4):
                 for bit in range(8 * len(pk[k])):
                     yield 'pktflip', si, f'I Hb0 H1 H2 S B Y3 N Y{k}b{bit} N O Ra Y{min(k + 1, 2 + na)} N O Ra'
+        # G2. tail fill: every byte position of the first audio packets, from there on 48 bytes of a constant (codeword streams that keep decoding)
+        if kind in ('geom', 'tiny', 'base'):
+            for k in range(3, 3 + min(na, 3)):
+                for pos in range(len(pk[k]) + 1):
+                    for v in (0, 255, 0x55, 0xaa, 0x0f):
+                        yield 'tailfill', si, f'I Hb0 H1 H2 S B Y3 N Y{k}t{pos}:{v}:48 N O Ra Y{min(k + 1, 2 + na)} N O Ra'
+        if kind == 'geom':
+            continue
         # H. granule positions / eos / padding
         for g in (-1, 0, 1, 100, 9223372036854775807, -9223372036854775807 - 1):
             for e in ('', 'e'):
@@ -344,7 +362,7 @@ def run(tier):
     plateau = {}
     cases = list(gen_cases(sets, meta, tier))
     # cheap families first so that a deadline cuts the big enumerations, not the targeted ones
-    order = {'extreme': 0, 'granule': 1, 'pad': 1, 'plateau3': 1, 'plateau4': 1, 'plateau5': 1, 'prefix': 2, 'field': 3, 'hdrorder': 4, 'trunc': 5, 'hrseq': 5, 'bitflip': 6, 'pktflip': 7, 'allbytes': 8, 'callseq': 9}
+    order = {'extreme': 0, 'granule': 1, 'pad': 1, 'plateau3': 1, 'plateau4': 1, 'plateau5': 1, 'prefix': 2, 'field': 3, 'hdrorder': 4, 'trunc': 5, 'tailfill': 5, 'hrseq': 5, 'bitflip': 6, 'pktflip': 7, 'allbytes': 8, 'callseq': 9}
     cases.sort(key=lambda c: order.get(c[0], 5))
     cut = False
     done = 0
